@@ -32,7 +32,9 @@ def specs(tier):
     S += [g for g in U.stars(4)]
     S += [g for g in U.stars(5) if len(g.atoms) == 6][::(6 if tier == "quick" else 1)]
     S += [g for g in U.two_unit() if len(g.atoms) <= 6][::(2 if tier == "quick" else 1)]
-    S += [g for g in U.scrg_universe("quick") if g.atoms][::(2 if tier == "quick" else 1)]
+    S += [g for g in U.scrg_universe("quick") if g.atoms and len(g.atoms) <= 7][::(2 if tier == "quick" else 1)]
+    S += [g for g in U.stars_extra() if len(g.atoms) <= 5]
+    S += [U.to_kind(g, SCRG) for g in U.stars_extra() if len(g.atoms) <= 5][::3]
     out = []
     for i, g in enumerate(S):
         h = g.copy()
